@@ -506,7 +506,7 @@ func genProg7(r *rng, e *Env7) string {
 // --- mutations ---------------------------------------------------------------------
 
 var mutKinds = []string{"same", "same", "contents", "extra", "numkind", "ptrflip", "carrier", "reorder", "reorder", "reorder-top",
-	"maybe-flip", "raw", "array", "empty", "empty-retype", "hetero", "hetero", "drop", "retype-top", "retype-deep", "field-add", "field-remove", "field-rename", "nil-flip", "bad"}
+	"maybe-flip", "retype-maybe", "raw", "array", "empty", "empty-retype", "hetero", "hetero", "drop", "retype-top", "retype-deep", "field-add", "field-remove", "field-rename", "nil-flip", "bad"}
 
 // collect object nodes (with their depth) below the bindings
 func objNodes(e *Env7) []*VT {
@@ -638,6 +638,25 @@ func (g *gen7) mutate(a *Env7, kind string) *Env7 {
 			for _, f := range v.Fields {
 				if f.Maybe {
 					f.Nil = !f.Nil
+					return true
+				}
+			}
+			return false
+		})
+	case "retype-maybe":
+		// the payload type of an optional (tagged, nil or not) changes: maybe[num] vs maybe[str]
+		mutateShape(&e, r, func(v *VT) bool {
+			if v.K != "obj" {
+				return false
+			}
+			for _, f := range v.Fields {
+				if f.Maybe {
+					switch f.V.K {
+					case "num":
+						f.V = &VT{K: "str", Str: "m"}
+					default:
+						f.V = &VT{K: "num", NumKind: "int", Num: 3}
+					}
 					return true
 				}
 			}
@@ -1099,7 +1118,7 @@ func runHist7(h *Hist7, x *evalCtx) hist7Result {
 }
 
 // dominant names the mutation a violation is attributed to in its signature.
-var mutPriority = []string{"rawbot", "rawput", "again", "bad", "hetero", "empty-retype", "drop", "retype-top", "retype-deep", "field-add", "field-remove", "field-rename", "nil-flip",
+var mutPriority = []string{"rawbot", "rawput", "again", "bad", "hetero", "empty-retype", "retype-maybe", "drop", "retype-top", "retype-deep", "field-add", "field-remove", "field-rename", "nil-flip",
 	"reorder", "reorder-top", "raw", "array", "empty", "carrier", "ptrflip", "numkind", "maybe-flip", "extra", "contents", "same"}
 
 func dominant(muts []string) string {
